@@ -1149,3 +1149,16 @@ M('C12', 'pdhg keeps the initial proximals under acceleration',
   "proximal_constant = (gamma_primal is None) and (gamma_dual is None)",
   "proximal_constant = (gamma_primal is None) or (gamma_dual is None)",
   'pdhg')
+DEFFN = 'odl/solvers/functional/default_functionals.py'
+MA('C08', 'group L1 conjugate keeps the exponent', DEFFN,
+   'GroupL1Norm.convex_conj',
+   'conj_exp = conj_exponent(self.pointwise_norm.exponent)',
+   'conj_exp = self.pointwise_norm.exponent', 'GroupL1Norm.convex_conj')
+MA('C08', 'nuclear norm conjugate swaps the two exponents', DEFFN,
+   'NuclearNorm.convex_conj',
+   'return IndicatorNuclearNormUnitBall(self.domain, conj_exponent(self.outernorm.exponent), conj_exponent(self.pwisenorm.exponent))',
+   'return IndicatorNuclearNormUnitBall(self.domain, conj_exponent(self.pwisenorm.exponent), conj_exponent(self.outernorm.exponent))',
+   'NuclearNorm.convex_conj')
+M('C08', 'conj_exponent of a generic p', 'odl/util/utility.py',
+  "        return exp / (exp - 1.0)", "        return exp / (exp + 1.0)",
+  'convex_conj')
